@@ -83,12 +83,15 @@ type Unit struct {
 	roGlobals    []string
 	mu           sync.Mutex
 	failAsserts  map[*Obligation][]*Term
+	mapBases     map[string]*MapNode
+	mapObjs      []int64
+	rangeOf      map[*ssa.Range]ssa.Value
+	b2sDone      int
 	branchConds  []*Term
 	branchSeen   map[int]bool
 	sliceCaps    []*Term
 	ptrs         []typedPtr
 	ptrSeen      map[[2]int]bool
-	maps         map[string]*mapLayer
 	Failed   string // set when the unit could not be encoded at all
 }
 
@@ -179,6 +182,10 @@ type Frame struct {
 	callCount map[string]int
 	inl       map[string]bool // callees forced to be inlined (lemma directive)
 	loopRuns  map[*ssa.BasicBlock]*loopRun
+	hdr       map[*ssa.BasicBlock]*loopInfo
+	order     []*ssa.BasicBlock
+	entry     BState
+	probe     *probeRec // non-nil while a loop body is executed only to collect back-edge states
 }
 
 type region struct {
@@ -598,17 +605,50 @@ func (f *Frame) run(entry BState) (res []*Term, out BState) {
 	f.edge = map[[2]int]BState{}
 	order := topoOrder(fn)
 	tb := f.tb()
-	type loopCtx struct {
-		li      *loopInfo
-		phis    []*ssa.Phi
-		entryCt int64
+	f.hdr = hdr
+	f.order = order
+	f.entry = entry
+	f.process(order, nil, nil)
+	// merge returns
+	if len(f.rets) == 0 {
+		return nil, BState{reach: tb.False(), mem: entry.mem}
 	}
-	lctx := map[*ssa.BasicBlock]*loopCtx{}
+	var conds []*Term
+	var states []BState
+	for _, r := range f.rets {
+		conds = append(conds, r.reach)
+		states = append(states, BState{reach: r.reach, mem: r.mem})
+	}
+	out.reach = tb.orFactor(conds)
+	out.mem = f.mergeMem(conds, states)
+	res = f.rets[len(f.rets)-1].vals
+	for k := len(f.rets) - 2; k >= 0; k-- {
+		n := make([]*Term, len(res))
+		for s := range res {
+			n[s] = tb.Ite(conds[k], f.rets[k].vals[s], res[s])
+		}
+		res = n
+	}
+	return res, out
+}
+
+// process executes the blocks of order (restricted to only, if non-nil). When start is
+// non-nil it is the first block and runs from f.cur as it is (loop probing).
+func (f *Frame) process(order []*ssa.BasicBlock, only map[*ssa.BasicBlock]bool, start *ssa.BasicBlock) {
+	tb := f.tb()
+	hdr := f.hdr
 	for _, b := range order {
+		if only != nil && !only[b] {
+			continue
+		}
 		var st BState
 		li := hdr[b]
+		if b == start {
+			f.execBlock(b, hdr)
+			continue
+		}
 		if b.Index == 0 {
-			st = entry
+			st = f.entry
 		} else {
 			var conds []*Term
 			var states []BState
@@ -658,34 +698,10 @@ func (f *Frame) run(entry BState) (res []*Term, out BState) {
 		}
 		f.cur = st
 		if li != nil {
-			lc := &loopCtx{li: li}
-			lctx[b] = lc
 			f.enterLoop(li, b)
 		}
 		f.execBlock(b, hdr)
 	}
-	_ = lctx
-	// merge returns
-	if len(f.rets) == 0 {
-		return nil, BState{reach: tb.False(), mem: entry.mem}
-	}
-	var conds []*Term
-	var states []BState
-	for _, r := range f.rets {
-		conds = append(conds, r.reach)
-		states = append(states, BState{reach: r.reach, mem: r.mem})
-	}
-	out.reach = tb.orFactor(conds)
-	out.mem = f.mergeMem(conds, states)
-	res = f.rets[len(f.rets)-1].vals
-	for k := len(f.rets) - 2; k >= 0; k-- {
-		n := make([]*Term, len(res))
-		for s := range res {
-			n[s] = tb.Ite(conds[k], f.rets[k].vals[s], res[s])
-		}
-		res = n
-	}
-	return res, out
 }
 
 func predIndex(b, p *ssa.BasicBlock) int {
@@ -713,6 +729,29 @@ func (f *Frame) mergeMem(conds []*Term, states []BState) MemState {
 				o = m
 			}
 			out.m[key] = f.u.mc.Ite(conds[k], m, o)
+		}
+		// map state: a key absent from one side denotes the unit's base node
+		keys := map[string]Sort{}
+		for key, m := range states[k].mem.mp {
+			keys[key] = m.sort
+		}
+		for key, m := range out.mp {
+			keys[key] = m.sort
+		}
+		for key, s := range keys {
+			a := f.mapNode(states[k].mem, key, s)
+			b := f.mapNode(out, key, s)
+			if a == b {
+				out.mp[key] = a
+				continue
+			}
+			if conds[k].IsTrue() {
+				out.mp[key] = a
+			} else if conds[k].IsFalse() {
+				out.mp[key] = b
+			} else {
+				out.mp[key] = f.u.mc.mnode(&MapNode{kind: mpIte, sort: s, c: conds[k], a: a, b: b})
+			}
 		}
 	}
 	return out
